@@ -123,3 +123,28 @@ impl Out {
         std::fs::write(format!("{dir}/report.json"), serde_json::to_string_pretty(&report).unwrap()).unwrap();
     }
 }
+
+/// the last line of a rendered `Pep508Error`: (number of leading blanks, number of carets)
+pub fn underline_of(rendered: &str) -> (usize, usize) {
+    let last = rendered.rsplit('\n').next().unwrap_or("");
+    (last.chars().take_while(|c| *c == ' ').count(), last.chars().filter(|c| *c == '^').count())
+}
+
+/// ` ul=a:b` for an error (or ` ul=panic`)
+pub fn ul_field(rendered: Option<String>) -> String {
+    match rendered { Some(r) => { let (a, b) = underline_of(&r); format!(" ul={a}:{b}") } None => " ul=panic".into() }
+}
+
+/// the per-char display widths of a text, as the `errdisp` case wants them
+pub fn width_field(text: &str) -> String {
+    if text.is_empty() { return "-".into(); }
+    text.chars().map(|c| match unicode_width::UnicodeWidthChar::width(c) { Some(w) => char::from_digit(w as u32, 10).unwrap_or('9'), None => 'n' }).collect()
+}
+
+/// from an `err …` answer: the `errdisp` case line and the implementation's underline
+pub fn errdisp_case(text: &str, ans: &str, start_field: usize) -> Option<(String, String)> {
+    let f: Vec<&str> = ans.split(' ').collect();
+    let ul = f.iter().find_map(|x| x.strip_prefix("ul="))?;
+    let (start, len) = (f.get(start_field)?, f.get(start_field + 1)?);
+    Some((format!("errdisp\t{}\t{}\t{}\t{}", hex(text), start, len, width_field(text)), if ul == "panic" { "panic".to_string() } else { format!("ul={ul}") }))
+}
